@@ -25,8 +25,10 @@ func ParseComment(token antlr.Token, filename string) *TODO {
 
 	var t = strings.TrimSpace(comment)
 	// todo: add todo list
-	if strings.HasPrefix(t, "//") || strings.HasPrefix(t, "/*") || strings.HasPrefix(t, "*/") || strings.HasPrefix(t, "#") {
+	if strings.HasPrefix(t, "//") || strings.HasPrefix(t, "/*") || strings.HasPrefix(t, "*/") {
 		t = strings.TrimSpace(t[2:])
+	} else if strings.HasPrefix(t, "#") {
+		t = strings.TrimSpace(t[1:])
 	}
 
 	if length, isTodo := IsTodoIdentifier(t); isTodo {
